@@ -70,3 +70,20 @@ def data_path(*parts):
 
 def test_data_path(*parts):
     return os.path.join(REPO, 'vermouth', 'tests', 'data', *parts)
+
+
+_SHARED = {}
+
+
+def shared(cls, *args, **kwargs):
+    """One instance of a processor class per process and per constructor arguments: processors are reusable pipeline stages,
+    so the workloads run one object over all the molecules/systems of a shard (state leaking from one run into the next is then
+    observable), instead of a fresh object per case.  Replays re-run whole cases (batches), which keeps histories reproducible."""
+    key = (cls, args, tuple(sorted(kwargs.items())))
+    try:
+        hash(key)
+    except TypeError:
+        return cls(*args, **kwargs)
+    if key not in _SHARED:
+        _SHARED[key] = cls(*args, **kwargs)
+    return _SHARED[key]
